@@ -20,7 +20,24 @@ Open Scope Z_scope.
 
 (* ---------- concrete element type and function tables (mirror of c08.rs Val) ---------- *)
 Inductive val : Type := VI (z : Z) | VP (a b : val) | VN | VS (a : val).
-Inductive fname : Type := FAdd (c : Z) | FFilt (m r : Z) | FWrap.
+(* one name per node behaviour.  A `NStateless f` of the model stands for ANY single-input node
+   (Stateless, GroupByKey, CombineValues, CombineGlobal): the runner applies one function to the
+   whole buffer.  Where a builder changes the element type and the harness maps back to rows,
+   the representation change is put into the first name and the re-typing map is FWrap. *)
+Inductive fname : Type :=
+| FAdd (c : Z)          (* map / map_batches / apply_transform: bump every int leaf of the value *)
+| FFilt (m r : Z)       (* filter / filter_values: score(v) mod m = r *)
+| FWrap                 (* a re-typing map, or a node whose effect is folded into a neighbour *)
+| FFlat (c : Z)         (* flat_map: [(k,v); (k, bump c v)] when score even, else [(k,v)] *)
+| FSome                 (* map_values / map_values_batches: v |-> Some v *)
+| FCombV                (* combine_values / gbk + combine_values_lifted: per key sum of scores *)
+| FCombG                (* combine_globally(_lifted): one row (0, sum of key + score) *)
+| FDedup                (* distinct / distinct_per_key: distinct rows *)
+| FKeyBy (m : Z)        (* key_by: (k,v) |-> (score v mod m, (k, v)) *)
+| FGbkSum               (* group_by_key (+ summary map): per key (count, sum of scores) *)
+| FTopK (kk : Z)        (* top_k_per_key (+ summary map): per key sum of the kk largest scores *)
+| FWin (size : Z)       (* attach_timestamps + key_by_window: (k,v) |-> (window start, (k,v)) *)
+| FKWin (size : Z).     (* keyed key_by_window: (k,v) |-> (1000 k + window start, v) *)
 Inductive gname : Type := JInner | JLeft | JRight | JFull.
 
 Fixpoint val_eqb (a b : val) : bool :=
@@ -52,14 +69,52 @@ Definition row_key (r : val) : Z := match r with VP (VI k) _ => k | _ => 0 end.
 Definition row_val (r : val) : val := match r with VP _ v => v | _ => VN end.
 Definition mk_row (k : Z) (v : val) : val := VP (VI k) v.
 
+Definition matches (k : Z) (l : list val) : list val := filter (fun r => row_key r =? k) l.
+
+Fixpoint dedup_z (l : list Z) : list Z :=
+  match l with
+  | [] => []
+  | x :: r => x :: filter (fun y => negb (y =? x)) (dedup_z r)
+  end.
+Fixpoint dedup_val (l : list val) : list val :=
+  match l with
+  | [] => []
+  | x :: r => x :: filter (fun y => negb (val_eqb y x)) (dedup_val r)
+  end.
+Definition zsum (l : list Z) : Z := fold_right Z.add 0 l.
+Fixpoint zinsert_desc (x : Z) (l : list Z) : list Z :=
+  match l with [] => [x] | y :: r => if y <=? x then x :: l else y :: zinsert_desc x r end.
+Definition zsort_desc (l : list Z) : list Z := fold_right zinsert_desc [] l.
+Definition scores (l : list val) : list Z := map (fun r => score (row_val r)) l.
+Definition per_key (f : Z -> list val -> val) (l : list val) : list val :=
+  map (fun k => mk_row k (f k (matches k l))) (dedup_z (map row_key l)).
+Definition win_start (size : Z) (v : val) : Z :=
+  let ts := Z.max 0 (score v) in ts - ts mod size.
+
 Definition interp_f (f : fname) (l : list val) : list val :=
   match f with
   | FAdd c => map (fun r => mk_row (row_key r) (bump c (row_val r))) l
   | FFilt m rr => filter (fun r => (score (row_val r)) mod m =? rr) l
   | FWrap => l            (* (k,(v,w)) |-> (k, P(v,w)): the identity on the untyped encoding *)
+  | FFlat c =>
+      flat_map (fun r => if (score (row_val r)) mod 2 =? 0
+                         then [r; mk_row (row_key r) (bump c (row_val r))] else [r]) l
+  | FSome => map (fun r => mk_row (row_key r) (VS (row_val r))) l
+  | FCombV => per_key (fun _ g => VI (zsum (scores g))) l
+  | FCombG => [mk_row 0 (VI (zsum (map (fun r => row_key r + score (row_val r)) l)))]
+  | FDedup => dedup_val l
+  | FKeyBy m => map (fun r => mk_row ((score (row_val r)) mod m) (VP (VI (row_key r)) (row_val r))) l
+  | FGbkSum => per_key (fun _ g => VP (VI (Z.of_nat (List.length g))) (VI (zsum (scores g)))) l
+  | FTopK kk => per_key (fun _ g => VI (zsum (firstn (Z.to_nat kk) (zsort_desc (scores g))))) l
+  | FWin size =>
+      map (fun r => mk_row (win_start size (row_val r)) (VP (VI (row_key r)) (row_val r))) l
+  | FKWin size =>
+      map (fun r => mk_row (row_key r * 1000 + win_start size (row_val r)) (row_val r)) l
   end.
 
-Definition matches (k : Z) (l : list val) : list val := filter (fun r => row_key r =? k) l.
+(* results that come out of a HashMap / HashSet: compared as multisets *)
+Definition f_unordered (f : fname) : bool :=
+  match f with FCombV | FDedup | FGbkSum | FTopK _ => true | _ => false end.
 
 (* joins.rs exec closures, as multisets (listed in a canonical order) *)
 Definition interp_g (g : gname) (l r : list val) : list val :=
@@ -113,10 +168,10 @@ Fixpoint perm_eqb (a b : list val) : bool :=
   | x :: a' => match remove_one x b with Some b' => perm_eqb a' b' | None => false end
   end.
 
-Fixpoint has_join (x : lineage) : bool :=
+Fixpoint has_join (x : lineage) : bool :=     (* "contains a HashMap-ordered step" *)
   match x with
   | LSrc _ => false
-  | LDerive _ p => has_join p
+  | LDerive f p => f_unordered f || has_join p
   | LJoin _ _ _ => true
   end.
 
@@ -153,8 +208,7 @@ Definition dec_ref (j : J) : option ref :=
 
 Inductive hcall : Type :=
 | HSrc (d : list val)
-| HMap (c : Z) (r : ref)
-| HFilter (m rr : Z) (r : ref)
+| HDerive (fs : list fname) (r : ref)      (* one builder call = the nodes it inserts, in order *)
 | HJoin (g : gname) (l r : ref)
 | HCollect (mode : Z) (r : ref).
 
@@ -162,27 +216,53 @@ Definition dec_gname (k : Z) : option gname :=
   if k =? 0 then Some JInner else if k =? 1 then Some JLeft
   else if k =? 2 then Some JRight else if k =? 3 then Some JFull else None.
 
+(* the builder table: harness name + two integer parameters |-> the nodes inserted *)
+Definition dop_fns (tag : string) (a b : Z) : option (list fname) :=
+  if String.eqb tag "filter" then (if 0 <? a then Some [FFilt a b] else None)
+  else if String.eqb tag "flat_map" then Some [FFlat a]
+  else if String.eqb tag "map_values" then Some [FSome]
+  else if String.eqb tag "filter_values" then (if 0 <? a then Some [FFilt a b] else None)
+  else if String.eqb tag "map_batches" then (if 0 <? a then Some [FAdd b] else None)
+  else if String.eqb tag "map_values_batches" then (if 0 <? a then Some [FSome] else None)
+  else if String.eqb tag "combine_values" then Some [FCombV]
+  else if String.eqb tag "combine_globally" then Some [FCombG]
+  else if String.eqb tag "combine_globally_lifted" then Some [FCombG]
+  else if String.eqb tag "apply_transform" then Some [FAdd a]
+  else if String.eqb tag "distinct" then Some [FDedup; FWrap]               (* combine_globally; flat_map *)
+  else if String.eqb tag "distinct_per_key" then Some [FWrap; FDedup; FWrap] (* gbk; combine lifted; flat_map *)
+  else if String.eqb tag "gbk_lifted" then Some [FWrap; FCombV]             (* gbk; combine_values_lifted *)
+  else if String.eqb tag "key_by" then (if 0 <? a then Some [FKeyBy a; FWrap] else None)
+  else if String.eqb tag "group_by_key" then Some [FGbkSum; FWrap]
+  else if String.eqb tag "top_k_per_key" then (if 0 <=? a then Some [FTopK a; FWrap] else None)
+  else if String.eqb tag "key_by_window" then (if 0 <? a then Some [FWrap; FWin a; FWrap] else None)
+  else if String.eqb tag "group_by_window" then (if 0 <? a then Some [FWrap; FWin a; FGbkSum; FWrap] else None)
+  else if String.eqb tag "group_by_key_and_window"
+       then (if 0 <? a then Some [FWrap; FKWin a; FGbkSum; FWrap] else None)
+  else None.
+
 Definition dec_call (j : J) : option hcall :=
   match j with
   | JL [JS tag; d] =>
       if String.eqb tag "src" then option_map HSrc (dec_rows d) else None
   | JL [JS tag; JI c; r] =>
-      if String.eqb tag "map" then option_map (HMap c) (dec_ref r)
+      if String.eqb tag "map" then option_map (HDerive [FAdd c]) (dec_ref r)
       else if String.eqb tag "collect" then
              if 0 <=? c then option_map (HCollect c) (dec_ref r) else None
       else None
   | JL [JS tag; JI a; b; c] =>
-      if String.eqb tag "filter" then
-        match b with
-        | JI rr => if 0 <? a then option_map (HFilter a rr) (dec_ref c) else None
-        | _ => None
-        end
-      else if String.eqb tag "join" then
+      if String.eqb tag "join" then
         match dec_gname a, dec_ref b, dec_ref c with
         | Some g, Some l, Some r => Some (HJoin g l r)
         | _, _, _ => None
         end
-      else None
+      else
+        match b with
+        | JI b' => match dop_fns tag a b', dec_ref c with
+                   | Some fs, Some r => Some (HDerive fs r)
+                   | _, _ => None
+                   end
+        | _ => None
+        end
   | _ => None
   end.
 Definition dec_program (j : J) : option (list hcall) :=
@@ -196,11 +276,11 @@ Definition dec_nats (j : J) : option (list nat) :=
 
 Definition hsteps (c : hcall) : nat :=
   match c with
-  | HSrc _ => 1 | HMap _ _ => 2 | HFilter _ _ _ => 2 | HJoin _ _ _ => 7 | HCollect _ _ => 3
+  | HSrc _ => 1 | HDerive fs _ => 2 * List.length fs | HJoin _ _ _ => 7 | HCollect _ _ => 3
   end%nat.
 Definition hinserts (c : hcall) : nat :=
   match c with
-  | HSrc _ => 1 | HMap _ _ => 1 | HFilter _ _ _ => 1 | HJoin _ _ _ => 3 | HCollect _ _ => 0
+  | HSrc _ => 1 | HDerive fs _ => List.length fs | HJoin _ _ _ => 3 | HCollect _ _ => 0
   end%nat.
 
 (* ---------- lineage of a reference, from the program text alone ---------- *)
@@ -228,8 +308,8 @@ Fixpoint lin_of (fuel : nat) (ps : list (list hcall)) (r : ref) : option lineage
   | S fuel' =>
       match producer (nth (fst r) ps []) (snd r) with
       | Some (HSrc d, _) => Some (LSrc d)
-      | Some (HMap c p, _) => option_map (LDerive (FAdd c)) (lin_of fuel' ps p)
-      | Some (HFilter m rr p, _) => option_map (LDerive (FFilt m rr)) (lin_of fuel' ps p)
+      | Some (HDerive fs p, _) =>
+          option_map (fun x => fold_left (fun acc f => LDerive f acc) fs x) (lin_of fuel' ps p)
       | Some (HJoin g l r', wrapped) =>
           match lin_of fuel' ps l, lin_of fuel' ps r' with
           | Some a, Some b =>
@@ -261,20 +341,32 @@ Inductive mcall : Type :=
 | MSrc (d : list val)
 | MDerive (f : fname) (r : ref)
 | MJoin (g : gname) (l r : ref)
-| MWrap                        (* raw.map(wrap): derive from the handle this thread made last *)
+| MChain (f : fname)           (* derive from the handle this thread's previous model call made *)
 | MCollect (r : ref).
 
-(* (harness call index, lock offset inside it, model call) *)
-Fixpoint expand (ci : nat) (p : list hcall) : list (nat * nat * mcall) :=
+(* a builder that inserts several nodes is several model calls of the same thread, back to
+   back; only the last one's handle is handed to the caller (`publish`) *)
+Fixpoint chain_calls (ci off : nat) (fs : list fname) : list (nat * nat * mcall * bool) :=
+  match fs with
+  | [] => []
+  | f :: rest =>
+      (ci, off, MChain f, match rest with [] => true | _ => false end)
+        :: chain_calls ci (S (S off)) rest
+  end.
+
+(* (harness call index, lock offset inside it, model call, publish the handle?) *)
+Fixpoint expand (ci : nat) (p : list hcall) : list (nat * nat * mcall * bool) :=
   match p with
   | [] => []
   | c :: rest =>
       (match c with
-       | HSrc d => [(ci, O, MSrc d)]
-       | HMap c' r => [(ci, O, MDerive (FAdd c') r)]
-       | HFilter m rr r => [(ci, O, MDerive (FFilt m rr) r)]
-       | HJoin g l r => [(ci, O, MJoin g l r); (ci, 5%nat, MWrap)]
-       | HCollect _ r => [(ci, O, MCollect r)]
+       | HSrc d => [(ci, O, MSrc d, true)]
+       | HDerive [] _ => []
+       | HDerive (f :: fs) r =>
+           (ci, O, MDerive f r, match fs with [] => true | _ => false end)
+             :: chain_calls ci 2%nat fs
+       | HJoin g l r => [(ci, O, MJoin g l r, true); (ci, 5%nat, MChain FWrap, true)]
+       | HCollect _ r => [(ci, O, MCollect r, true)]
        end) ++ expand (S ci) rest
   end.
 
@@ -285,9 +377,10 @@ Inductive item : Type :=
 
 Record drv : Type := mk_drv {
   d_cfg : config;
-  d_rem : list (list (nat * nat * mcall));   (* per thread: model calls still to start *)
-  d_cur : list (nat * nat);                  (* per thread: (harness call, next lock index) *)
-  d_prod : list (list nat);                  (* per thread: pool indices of its handles *)
+  d_rem : list (list (nat * nat * mcall * bool));  (* per thread: model calls still to start *)
+  d_cur : list (nat * nat * bool);           (* per thread: (harness call, next lock, publish) *)
+  d_prod : list (list nat);                  (* per thread: pool indices of its PUBLISHED handles *)
+  d_last : list nat;                         (* per thread: pool index of its latest model handle *)
   d_turns : list (nat * nat * nat);          (* reversed *)
   d_items : list (nat * nat * item)          (* reversed: (thread, harness call, item) *)
 }.
@@ -302,20 +395,17 @@ Fixpoint upd {A} (l : list A) (i : nat) (x : A) : list A :=
 Definition resolve (prod : list (list nat)) (r : ref) : option nat :=
   nth_error (nth (fst r) prod []) (snd r).
 
-Definition last_opt (l : list nat) : option nat :=
-  match rev l with x :: _ => Some x | [] => None end.
-
-Definition to_call (prod : list (list nat)) (t : nat) (m : mcall)
-  : option (call val fname gname) :=
+Definition to_call (d : drv) (t : nat) (m : mcall) : option (call val fname gname) :=
+  let prod := d_prod d in
   match m with
-  | MSrc d => Some (CSource d)
+  | MSrc x => Some (CSource x)
   | MDerive f r => option_map (CDerive f) (resolve prod r)
   | MJoin g l r =>
       match resolve prod l, resolve prod r with
       | Some a, Some b => Some (CJoin g a b)
       | _, _ => None
       end
-  | MWrap => option_map (CDerive FWrap) (last_opt (nth t prod []))
+  | MChain f => option_map (CDerive f) (nth_error (d_last d) t)
   | MCollect r => option_map CCollect (resolve prod r)
   end.
 
@@ -325,6 +415,8 @@ Definition item_of (e : event val fname gname) : item :=
   | EvCollect _ x plan => IC x plan
   | EvPanic _ => IP
   end.
+Definition is_handle_event (e : event val fname gname) : bool :=
+  match e with EvHandle _ _ => true | _ => false end.
 
 (* one granted turn of thread t; None = the input is not a valid history *)
 Definition turn (d : drv) (t : nat) : option drv :=
@@ -332,16 +424,16 @@ Definition turn (d : drv) (t : nat) : option drv :=
   let go (d : drv) (oc : option (call val fname gname)) : option drv :=
     match cstep (d_cfg d) (t, oc) with
     | Some (cfg', evs) =>
-        let '(ci, st) := nth t (d_cur d) (O, O) in
+        let '(ci, st, pub) := nth t (d_cur d) (O, O, true) in
         let npool := List.length (c_pool (d_cfg d)) in
-        let prod' :=
-          match handles_of evs with
-          | [] => d_prod d
-          | _ => upd (d_prod d) t (nth t (d_prod d) [] ++ [npool])
-          end in
-        Some (mk_drv cfg' (d_rem d) (upd (d_cur d) t (ci, S st)) prod'
+        let made := match handles_of evs with [] => false | _ => true end in
+        let prod' := if made && pub then upd (d_prod d) t (nth t (d_prod d) [] ++ [npool])
+                     else d_prod d in
+        let last' := if made then upd (d_last d) t npool else d_last d in
+        let shown := filter (fun e => pub || negb (is_handle_event e)) evs in
+        Some (mk_drv cfg' (d_rem d) (upd (d_cur d) t (ci, S st, pub)) prod' last'
                      ((t, ci, st) :: d_turns d)
-                     (rev (map (fun e => (t, ci, item_of e)) evs) ++ d_items d))
+                     (rev (map (fun e => (t, ci, item_of e)) shown) ++ d_items d))
     | None => None
     end in
   match ts with
@@ -350,11 +442,11 @@ Definition turn (d : drv) (t : nat) : option drv :=
   | Idle =>
       match nth t (d_rem d) [] with
       | [] => Some d                                   (* finished: the grant is skipped *)
-      | (ci, off, m) :: rest =>
-          match to_call (d_prod d) t m with
+      | (ci, off, m, pub) :: rest =>
+          match to_call d t m with
           | Some c =>
-              go (mk_drv (d_cfg d) (upd (d_rem d) t rest) (upd (d_cur d) t (ci, off))
-                         (d_prod d) (d_turns d) (d_items d)) (Some c)
+              go (mk_drv (d_cfg d) (upd (d_rem d) t rest) (upd (d_cur d) t (ci, off, pub))
+                         (d_prod d) (d_last d) (d_turns d) (d_items d)) (Some c)
           | None => None
           end
       end
@@ -368,8 +460,10 @@ Fixpoint turns_of (d : drv) (sched : list nat) : option drv :=
 
 Definition replay (ps : list (list hcall)) (sched : list nat) : option drv :=
   let n := List.length ps in
-  let drain := flat_map (fun t => repeat t (7 * List.length (nth t ps []))%nat) (seq 0 n) in
-  turns_of (mk_drv init_config (map (expand O) ps) (repeat (O, O) n) (repeat [] n) [] [])
+  let drain := flat_map (fun t => repeat t (fold_right (fun c a => (hsteps c + a)%nat) O (nth t ps [])))
+                        (seq 0 n) in
+  turns_of (mk_drv init_config (map (expand O) ps) (repeat (O, O, true) n) (repeat [] n)
+                   (repeat O n) [] [])
            (sched ++ drain).
 
 (* ---------- observed side ---------- *)
